@@ -152,6 +152,9 @@ func init() {
 	reg("AppendFn", func(x *Ctx, op *Op, r *Result) {
 		a, v, p := op.dec(0), byte(op.int(0)), int(op.int(1))
 		buf := x.buf(op.int(2))
+		if op.int(3) == 1 {
+			buf = buf[:0] // the scratch-buffer idiom: buf = Append(buf[:0], ...)
+		}
 		prefix := string(buf)
 		x.call(r, func() {
 			out := decimal128.Append(buf, a, v, p)
@@ -174,6 +177,9 @@ func init() {
 	reg("AppendM", func(x *Ctx, op *Op, r *Result) {
 		a, spec := op.dec(0), op.str(0)
 		buf := x.buf(op.int(0))
+		if op.int(1) == 1 {
+			buf = buf[:0]
+		}
 		prefix := string(buf)
 		x.call(r, func() {
 			out := a.Append(buf, spec)
